@@ -200,6 +200,11 @@ func (p *prop) Run(line string) core.Outcome {
 	}
 	if proved {
 		o.Tags = append(o.Tags, "in-proved-fragment-W")
+	} else if len(feats) == 0 {
+		// neither inside the proved fragment nor carrying a risky construct: covered by the
+		// correspondence stream and the oracle only (placeholders, multi-line / escaped strings,
+		// backquoted tokens, heredocs, line continuations, comments next to braces)
+		o.Tags = append(o.Tags, "clean-outside-W")
 	}
 	for _, ft := range feats {
 		o.Tags = append(o.Tags, "feat:"+ft)
